@@ -7,7 +7,8 @@ import MpVerif.C20.ModelExport
   reset              forget graph lines and delivered log
   L <hex>            one line of the export (raw bytes, hex) -> `rec <tag>` | `nojson` | `noobj` | `unknown` | `badutf8`
   N a b c d          NL sizes: vars objs algebraic-cons logical-cons
-  V a b              delivered: vars objs
+  v ty lbInf ubInf   one delivered variable (type 0/1, bound-is-infinite flags 0/1), in index order
+  o sense lin q1 q2  one delivered objective (sense 0/1; comma-separated variable lists or `-`), in index order
   C <hexty> g <hexname>   one delivered constraint (short type name, group, name)
   check              -> `ok` | `fail <reasons>`
   X <op>*            link-export protocol: ops `a:<c|o|m>:<src>:<sb>:<se>:<dst>:<db>:<de>` (AddEntry) and `f` (finish)
@@ -80,10 +81,13 @@ def finalDump (s : PState) : String :=
   let d := go 0 s.brl
   if d == "" then "-" else d
 
+def natCsv (s : String) : Option (List Nat) :=
+  if s == "-" then some [] else (s.splitOn ",").mapM (·.toNat?)
+
 structure DState where
   lines : List (Option Rec) := []      -- reversed
   bad : Bool := false
-  d : Delivered := ⟨0, 0, 0, 0, 0, 0, []⟩
+  d : Delivered := ⟨0, 0, 0, 0, [], [], []⟩
 
 partial def loop (h : IO.FS.Stream) (out : IO.FS.Stream) (st : DState) : IO Unit := do
   let line ← h.getLine
@@ -130,10 +134,16 @@ partial def loop (h : IO.FS.Stream) (out : IO.FS.Stream) (st : DState) : IO Unit
       out.putStrLn "ok"
       loop h out { st with d := { st.d with nlVars := a, nlObjs := b, nlAlgCons := c, nlLogCons := d } }
     | _, _, _, _ => out.putStrLn "bad-op"; loop h out st
-  | ["V", a, b] =>
-    match a.toNat?, b.toNat? with
-    | some a, some b => out.putStrLn "ok"; loop h out { st with d := { st.d with nVars := a, nObjs := b } }
-    | _, _ => out.putStrLn "bad-op"; loop h out st
+  | ["v", a, b, c] =>
+    match a.toNat?, b.toNat?, c.toNat? with
+    | some a, some b, some c =>
+      out.putStrLn "ok"; loop h out { st with d := { st.d with vars := st.d.vars ++ [⟨a, b != 0, c != 0⟩] } }
+    | _, _, _ => out.putStrLn "bad-op"; loop h out st
+  | ["o", sn, l, q1, q2] =>
+    match sn.toNat?, natCsv l, natCsv q1, natCsv q2 with
+    | some sn, some l, some q1, some q2 =>
+      out.putStrLn "ok"; loop h out { st with d := { st.d with objs := st.d.objs ++ [⟨sn, l, q1, q2⟩] } }
+    | _, _, _, _ => out.putStrLn "bad-op"; loop h out st
   | ["C", ty, g, nm] =>
     match unhexStr ty, g.toNat?, unhexStr nm with
     | some (some ty), some g, some (some nm) =>
